@@ -8,3 +8,5 @@ import KalignModel.Props.C17
 #print axioms Kalign.row_order_invariant
 #print axioms Kalign.scoreF32_row_order_invariant
 #print axioms Kalign.late_names_ok
+#print axioms Kalign.score_100_only_if_all_reproduced
+#print axioms Kalign.score_lt_100_of_lost_relation
